@@ -47,7 +47,12 @@ func (t *Timer) Set(dur time.Duration, cb func()) error {
 	if err == nil {
 		// TODO error checking here
 		t.slot.Set(ReadEvent, func(error) {
-			_, _ = syscall.Read(t.fd, t.b[:])
+			if _, rerr := syscall.Read(t.fd, t.b[:]); rerr == syscall.EAGAIN {
+				// The timer has not expired: this is a stale readiness notification, i.e. the timer expired, and a
+				// handler that ran earlier in the same poll batch cancelled and re-armed it. Keep waiting.
+				_ = t.poller.SetRead(&t.slot)
+				return
+			}
 			cb()
 		})
 		err = t.poller.SetRead(&t.slot)
